@@ -220,9 +220,12 @@ func main() {
 	}
 	r := vh.NewRand(o.Seed)
 	g := sim.NewGen(r)
-	cases := &vh.Cases{Import: "From MV Require Import C17.Model.", Type: "tcase", CheckFn: "check", Shard: 250}
+	cases := &vh.Cases{Import: "From MV Require Import C17.Model.", Type: "tcase", CheckFn: "check", Shard: o.Pick(250, 500)}
 
 	// ---------------------------------------------------------------- base.CheckFactSignsBySuffrage alone
+	if rp != nil && rp.Case < 0 && len(rp.Order) == 3 {
+		replayRatio(rp.Order[0], rp.Order[1], rp.Order[2])
+	}
 	ratioCases(o, r, res, cases)
 
 	// ---------------------------------------------------------------- API: duplicate node signs cannot be built
@@ -231,7 +234,7 @@ func main() {
 	// ---------------------------------------------------------------- blocks
 	// phase 1 (sequential, all randomness): cases, orders, worker sizes; phase 2 (parallel): the runs;
 	// phase 3 (sequential): oracle, order comparison, model cases.
-	nblocks := o.Pick(450, 9000)
+	nblocks := o.Pick(350, 5000)
 	t0 := time.Now()
 	type job struct {
 		c      *sim.Case
@@ -239,9 +242,16 @@ func main() {
 		sched  []sim.Sched
 		obs    []sim.Obs
 	}
+	corpus := g.Corpus()
+	nblocks += len(corpus)
 	jobs := make([]*job, nblocks)
 	for ci := range jobs {
-		c := g.RandomCase(res, false)
+		var c *sim.Case
+		if ci < len(corpus) {
+			c = corpus[ci]
+		} else {
+			c = g.RandomCase(res, false)
+		}
 		j := &job{c: c, orders: [][]int{c.Identity()}}
 		if len(c.Ops) > 1 {
 			j.orders = append(j.orders, r.Perm(len(c.Ops)))
@@ -319,6 +329,26 @@ func main() {
 	res.Write(o.Out)
 }
 
+// replayRatio prints CheckFactSignsBySuffrage for s counted signs of n nodes at threshold k/10
+func replayRatio(s, n, k int) {
+	g := sim.NewGen(vh.NewRand(7))
+	ids := make([]base.Node, n)
+	for i := range ids {
+		id := g.NewIdentForRatio()
+		ids[i] = isaac.NewNode(id.Pub(), id.Addr)
+	}
+	suf, err := isaac.NewSuffrage(ids)
+	if err != nil {
+		panic(err)
+	}
+	signs := make([]base.NodeSign, s)
+	for i := range signs {
+		signs[i] = base.NewBaseNodeSign(ids[i].Address(), ids[i].Publickey(), base.Signature("x"), time.Unix(1700000000, 0))
+	}
+	err = base.CheckFactSignsBySuffrage(suf, sim.ThresholdOf(k), signs)
+	fmt.Printf("CheckFactSignsBySuffrage(%d member signs of %d nodes, threshold %d.%d) = %v ; exact: %d*1000 >= %d*%d is %v\n", s, n, k/10, k%10, err, s, k, n, s*1000 >= k*n)
+}
+
 // ratioCases: CheckFactSignsBySuffrage(suf, t, signs) on real suffrages of n nodes with s counted signs.
 func ratioCases(o *vh.Opts, r *vh.Rand, res *vh.Result, cases *vh.Cases) {
 	const maxN = 300
@@ -363,7 +393,7 @@ func ratioCases(o *vh.Opts, r *vh.Rand, res *vh.Result, cases *vh.Cases) {
 		{1, 1, 1000}, {0, 1, 510}, {51, 100, 510}, {50, 100, 510}, {300, 300, 1000}, {299, 300, 1000}, {7, 12, 583}, {7, 12, 584}} {
 		one(c[1], c[0], c[2], false)
 	}
-	nr := o.Pick(1500, 30000)
+	nr := o.Pick(900, 15000)
 	for i := 0; i < nr; i++ {
 		n := 1 + r.Intn(maxN)
 		if r.Chance(1, 2) {
